@@ -579,6 +579,66 @@ func (r *EngineRunner) Exec(f []string) (res string) {
 		}
 		r.ref.fold(r, got)
 		return fmt.Sprintf("ok %d %s", n, Md5Hex([]byte(sb.String()))) + r.takeEvents(false)
+	case "foldw": // E foldw <at> <w>... : Fold whose callback, at its invocation number <at>, writes (p,key,val / d,key)
+		at := atoi(f[2])
+		want := r.ref.sortedKeys()
+		wantV := map[string][]byte{}
+		for _, k := range want {
+			wantV[k] = r.ref.m[k]
+		}
+		var wres []string
+		done := false
+		writes := func() {
+			done = true
+			for _, w := range f[3:] {
+				p := strings.Split(w, ",")
+				k, _ := ParseTok(p[1])
+				var err error
+				if p[0] == "p" {
+					v, _ := ParseTok(p[2])
+					err = r.db.Put(k, v)
+					r.ref.put(r, k, v, err)
+				} else {
+					err = r.db.Delete(k)
+					r.ref.del(r, k, err)
+				}
+				if err != nil {
+					wres = append(wres, "err:"+EngErr(err))
+				} else {
+					wres = append(wres, "ok")
+				}
+			}
+		}
+		var sb strings.Builder
+		n := 0
+		var got [][2][]byte
+		err := r.db.Fold(func(k, v []byte) bool {
+			sb.WriteString(Obs(k) + "=" + Obs(v) + ";")
+			got = append(got, [2][]byte{append([]byte(nil), k...), append([]byte(nil), v...)})
+			if n == at {
+				writes()
+			}
+			n++
+			return true
+		})
+		if !done {
+			writes()
+		}
+		if err != nil {
+			return "err " + EngErr(err) + r.takeEvents(false)
+		}
+		// the snapshot taken when Fold began is what must have been visited
+		if len(got) != len(want) {
+			r.fail("C10", "Fold (callback writes at item %d) visited %d keys, the map had %d when it began", at, len(got), len(want))
+		} else {
+			for i := range want {
+				if string(got[i][0]) != want[i] || !bytes.Equal(got[i][1], wantV[want[i]]) {
+					r.fail("C10", "Fold (callback writes at item %d) item %d = (%s,%s), expected (%s,%s)", at, i, Obs(got[i][0]), Obs(got[i][1]), Obs([]byte(want[i])), Obs(wantV[want[i]]))
+					break
+				}
+			}
+		}
+		return fmt.Sprintf("ok %d %s w=%s", n, Md5Hex([]byte(sb.String())), strings.Join(wres, ",")) + r.takeEvents(false)
 	case "stat":
 		st := r.db.Stat()
 		r.ref.stat(r, st)
@@ -660,6 +720,102 @@ func (r *EngineRunner) Exec(f []string) (res string) {
 			s = "err " + EngErr(err)
 		}
 		return s + " order " + strings.Join(ids, ",") + r.takeEvents(false)
+	case "mergeget":
+		// a Merge during which another client reads: at every file operation, directory operation and scan
+		// step of the merge a Get is issued from a second goroutine.  No mutation runs, so every Get that
+		// returns - during the merge or, having waited for the engine lock, after it - must answer exactly
+		// what the mapping holds.  For the model this is one Merge.
+		r.mergeSeen = nil
+		r.installMergeHook()
+		type probeRes struct {
+			k   []byte
+			v   []byte
+			err error
+			at  string
+		}
+		var probeKeys [][]byte
+		for _, k := range r.ref.sortedKeys() {
+			if k != "" {
+				probeKeys = append(probeKeys, []byte(k))
+			}
+		}
+		probeKeys = append(probeKeys, []byte("\x00absent-key"))
+		mergeG := goid()
+		var pending []chan probeRes
+		probes, answeredDuring := 0, 0
+		checkProbe := func(p probeRes) {
+			want, ok := r.ref.m[string(p.k)]
+			switch {
+			case !ok && p.err != kv.ErrKeyNotFound:
+				r.fail("C08", "Get(%s) issued while Merge was at %s: key absent before, during and after the merge, got value %s err %v", Obs(p.k), p.at, Obs(p.v), p.err)
+			case ok && p.err != nil:
+				r.fail("C08", "Get(%s) issued while Merge was at %s: the key holds %s before, during and after the merge, got error %v", Obs(p.k), p.at, Obs(want), p.err)
+			case ok && !bytes.Equal(p.v, want):
+				r.fail("C08", "Get(%s) issued while Merge was at %s: the key holds %s before, during and after the merge, got %s", Obs(p.k), p.at, Obs(want), Obs(p.v))
+			}
+		}
+		probe := func(at string) {
+			if goid() != mergeG || probes >= 240 {
+				return
+			}
+			k := probeKeys[probes%len(probeKeys)]
+			probes++
+			ch := make(chan probeRes, 1)
+			db := r.db
+			go func() {
+				v, err := db.Get(k)
+				ch <- probeRes{k, append([]byte(nil), v...), err, at}
+			}()
+			select {
+			case p := <-ch:
+				answeredDuring++
+				checkProbe(p)
+			case <-time.After(200 * time.Microsecond):
+				pending = append(pending, ch)
+			}
+		}
+		savedEv, savedFs := fio.VerifEvent, kv.VerifFsEvent
+		fio.VerifEvent = func(kind string, path string, data []byte, n int64) {
+			if goid() != mergeG {
+				return
+			}
+			if savedEv != nil {
+				savedEv(kind, path, data, n)
+			}
+			probe(kind + " " + filepath.Base(path))
+		}
+		kv.VerifFsEvent = func(kind string, a string, b string) {
+			if savedFs != nil {
+				savedFs(kind, a, b)
+			}
+			probe(kind + " " + filepath.Base(a))
+		}
+		kv.VerifSched = func(label string) {
+			if label == "merge.scan" {
+				probe(label)
+			}
+		}
+		err := r.db.Merge()
+		for _, ch := range pending {
+			select {
+			case p := <-ch:
+				checkProbe(p)
+			case <-time.After(20 * time.Second):
+				r.fail("C09", "a Get issued during Merge had not returned 20 s after Merge returned")
+			}
+		}
+		// (the hooks are package variables read by the probing goroutines: reset once those have finished)
+		fio.VerifEvent, kv.VerifFsEvent, kv.VerifSched = savedEv, savedFs, nil
+		var ids []string
+		for _, id := range r.mergeSeen {
+			ids = append(ids, fmt.Sprintf("%d", id))
+		}
+		r.ref.merge(r, err)
+		s := "ok"
+		if err != nil {
+			s = "err " + EngErr(err)
+		}
+		return s + " order " + strings.Join(ids, ",") + r.takeEvents(false) + fmt.Sprintf(" # probes=%d answered_during=%d", probes, answeredDuring)
 	case "mergebusy":
 		// a Merge that is probed while it runs: parked at its first scan step, two more Merge calls must both
 		// be refused (the running merge owns the merge directory until it returns); then it is released.
